@@ -117,3 +117,4 @@ require (
 replace github.com/filecoin-project/go-data-transfer/v2 => /repo
 
 replace github.com/hannahhoward/go-pubsub => ./third_party/go-pubsub
+replace github.com/filecoin-project/go-statemachine => ./third_party/go-statemachine
